@@ -22,3 +22,112 @@ def blob(n, tag):
 def blob2(n, tag):
     EXEC_COUNT["blob2"] += 1
     return bytes(n) + repr(("blob2", n, tag)).encode()
+
+
+# ---- real-backend tasks (E2) ---------------------------------------------------------
+
+def _log(path, line):
+    fd = os.open(path, os.O_WRONLY | os.O_APPEND | os.O_CREAT, 0o644)
+    try:
+        os.write(fd, (line + "\n").encode())
+    finally:
+        os.close(fd)
+
+
+class TaskError(Exception):
+    pass
+
+
+def rtask(idx, sleep_ms, logpath, fail=None):
+    """Log start/end (atomic O_APPEND lines, totally ordered across processes), sleep, return or raise."""
+    import threading
+    me = "%d %d" % (os.getpid(), threading.get_ident())
+    _log(logpath, "S %d %s" % (idx, me))
+    if sleep_ms:
+        time.sleep(sleep_ms / 1000.0)
+    _log(logpath, "E %d %s" % (idx, me))
+    if fail == "value":
+        raise ValueError("x", idx)
+    if fail == "key":
+        raise KeyError(idx)
+    if fail == "custom":
+        raise TaskError("task", idx)
+    if fail == "os":
+        raise OSError(2, "msg-%d" % idx)
+    return ("r", idx, idx % 3)
+
+
+def nest(level, depth, path, logpath, sleep_ms=5):
+    """Nested Parallel calls that leave the backend unspecified."""
+    import threading
+
+    from joblib import Parallel, delayed
+    _log(logpath, "N %d %s %d %d" % (level, path, os.getpid(), threading.get_ident()))
+    time.sleep(sleep_ms / 1000.0)
+    if level < depth:
+        Parallel(n_jobs=2)(delayed(nest)(level + 1, depth, "%s.%d" % (path, i), logpath, sleep_ms) for i in range(2))
+    return path
+
+
+# ---- faults (C10) ------------------------------------------------------------------------
+
+def die_now(kind):
+    import ctypes
+    import signal
+    if kind == "SIGKILL":
+        os.kill(os.getpid(), signal.SIGKILL)
+    elif kind == "SIGTERM":
+        os.kill(os.getpid(), signal.SIGTERM)
+    elif kind == "SIGSEGV":
+        ctypes.string_at(0)
+    elif kind == "abort":
+        os.abort()
+    elif kind == "exit0":
+        os._exit(0)
+    else:
+        os._exit(1)
+    time.sleep(5)   # signal delivery
+    os._exit(3)
+
+
+class BombOnUnpickle:
+    """Dies in whichever process unpickles it (the worker receiving it as an argument)."""
+
+    def __init__(self, kind):
+        self.kind = kind
+
+    def __reduce__(self):
+        return (die_now, (self.kind,))
+
+
+def _rebuild(x):
+    return x
+
+
+class BombOnPickle:
+    """Dies when pickled outside the parent process (the worker sending it back as a result)."""
+
+    def __init__(self, kind, parent_pid):
+        self.kind, self.parent_pid = kind, parent_pid
+
+    def __reduce__(self):
+        if os.getpid() != self.parent_pid:
+            die_now(self.kind)
+        return (_rebuild, ((self.kind, self.parent_pid),))
+
+
+def ftask(idx, logpath, sleep_ms=0, fault=None, bomb=None, parent_pid=None, big=0):
+    """C10 task: logs its pid, optionally dies at a drawn instant, returns ("r", idx)."""
+    _log(logpath, "S %d %d" % (idx, os.getpid()))
+    if fault and fault[0] == "start":
+        die_now(fault[1])
+    if sleep_ms:
+        time.sleep(sleep_ms / 1000.0)
+    if fault and fault[0] == "mid":
+        die_now(fault[1])
+    _log(logpath, "E %d %d" % (idx, os.getpid()))
+    if fault and fault[0] == "pickle_result":
+        return BombOnPickle(fault[1], parent_pid)
+    if big:
+        return ("r", idx, bytes(big))
+    return ("r", idx)
